@@ -58,8 +58,13 @@ RULE = ("cbcheck*: hypothesis draws model parameters + an integer seed; refs/cbm
         ">= 1 modal DOF, >= 2 frequencies and damping present (cbtf); non-zero cg offset and products of "
         "inertia (cgmass); distinct by case hash.")
 ASSUME = ["refs/cbmodel.py (numpy/scipy float64: assembled K, M, solve, eigh) is accurate to ~1e-13 relative; "
-          "rigid-body vectors are compared at 1e-8 x max(1, model length), masses at 1e-8 of their "
-          "dimensional scale (observed <= 1e-11, see worst_normalised_error)",
+          "geometry-/stiffness-based rigid-body vectors are compared at 1e-7 x max(1, model length), masses "
+          "at 1e-7 of their dimensional scale (observed <= 5e-10), everything derived from the "
+          "eigenvalue-based modes at 1e-4 (observed <= 5e-7; eigsh uses a random start vector, so that "
+          "error varies from run to run), see worst_normalised_error",
+          "n_freefree_modes is the default 25 or larger: with smaller values ARPACK was seen to return "
+          "only five of the six coincident zero eigenvalues in ~5 % of the runs on some models "
+          "(non-deterministic, reported, not generated)",
           "local displacement frames of cylindrical/spherical output systems come from refs/coordsys.py (C14)",
           "the report text is parsed only for documented tables (movement checks, refpoint PASS/FAIL, "
           "RB'*K*RB sums) with the print precision 0.001 as tolerance",
@@ -68,12 +73,13 @@ ASSUME = ["refs/cbmodel.py (numpy/scipy float64: assembled K, M, solve, eigh) is
 KNOWN = {}
 
 EPS = util.EPS
-TOL_RB = 1e-8        # rigid-body vectors / max(1, length)          (observed <= 3e-12)
-TOL_MASS = 1e-8      # 6x6 masses, mass properties, dimensional scale (observed <= 1e-11)
-TOL_KRB = 1e-9       # |K rb| / (|K|max |rb|max n)                    (observed <= 1e-13)
+TOL_RB = 1e-7        # geometry-/stiffness-based rigid-body vectors / max(1, length) (observed <= 2e-10)
+TOL_MASS = 1e-7      # 6x6 masses, mass properties, effective mass / dimensional scale (observed <= 5e-10)
+TOL_EIG = 1e-4       # everything derived from the eigenvalue-based modes (observed <= 5e-7)
+TOL_KRB = 1e-8       # |K rb| / (|K|max |rb|max n)                    (observed <= 3e-11)
 TOL_EXACT = 1e-12    # permutation / unit factors / round trips       (observed <= 5e-16)
 TOL_PRINT = 0.00051  # 3 decimals in the report
-TOL_TF = 2000.0      # cbtf: x eps x conditioning                     (observed <= 20)
+TOL_TF = 2.0e4       # cbtf: x eps x conditioning                     (observed <= 100)
 
 CONV_TABLE = {"m2e": (39.37007874015748, 0.005710147154735817),
               "e2m": (0.0254, 175.12683524637913)}
@@ -310,10 +316,20 @@ def oracle_cbcheck(case, R):
     slen = max(Sn.length_scale(), float(np.abs(Sn.xyz - P_g).max()))
     mtot = Sn.total_mass()
     xyz_g = Sn.xyz.copy()                      # geometry as the USET tells it
+    frames_g = list(Sn.frames)
     if moved:
         for j, x in moved.items():
             xyz_g[mat[j]] = x * L
-    rbg_exp = np.vstack([cs.rigid_rows(Sn.frames[g], xyz_g[g] - P_g) for g in dgrids])
+            sy = mdl["systems"][mdl["couts"][j]]
+            if sy.ctype != cs.RECT:
+                # the local directions of a cylindrical/spherical system follow the (moved) location
+                rho = cs.axis_distance(sy, x)
+                rr = float(np.linalg.norm(cs.local_rect(sy, x)))
+                if rho < 0.05 * case["length"] or (sy.ctype == cs.SPH and rho < rr * math.sin(2 * cs.D2R)):
+                    R.label("out_of_domain:moved_onto_polar_axis")
+                    return
+                frames_g[mat[j]] = cs.local_frame(sy, x)
+    rbg_exp = np.vstack([cs.rigid_rows(frames_g[g], xyz_g[g] - P_g) for g in dgrids])
     rbtrue_g = Sn.rb_local(P_g, dgrids)
     rb_norm = case["rb_norm"]
     norm_eff = bool(rb_norm) if rb_norm is not None else bool(np.any(np.diff(bref_new) != 1))
@@ -390,6 +406,8 @@ def oracle_cbcheck(case, R):
     got_ids = [int(t) for t in out.uset.index.get_level_values("id")[::6]]
     ok_ids = R.check(got_ids == want_ids, "returned_uset_order",
                      f"bseto grid order {order}: returned uset grids {got_ids}, matrices are in order {want_ids}")
+    if not ok_ids:
+        return                       # everything below would only repeat this
     if ok_ids:
         gx = out.uset.iloc[::6, 1:].values
         wx = np.array([xyz_g[g] for g in (dgrids if reorder else mat)])
@@ -419,15 +437,20 @@ def oracle_cbcheck(case, R):
         R.check(e <= TOL_RB, "rbs_vs_analytic",
                 f"err={e:.3g} bref={bkind} rb_norm={rb_norm} layout={case['layout']} reorder={reorder}")
         R.check(not rbs[qrows].any(), "rbs_modal_rows_nonzero")
+    # null vectors of an eigensolution (eigh, or ARPACK with a random start vector: run-to-run variable)
+    # are far less accurate than the other two families: own fixed tolerance
+    tol_e = TOL_EIG
     if not grounded:
         e = float(np.abs(rbe[bs_d] - rbs_exp).max()) / srb
         R.metric("rbe_err/len", e)
-        R.check(e <= TOL_RB, "rbe_vs_analytic",
-                f"err={e:.3g} bref={bkind} rb_norm={rb_norm} n={n} nff={case.get('nff', 25)}")
+        R.check(e <= tol_e, "rbe_vs_analytic",
+                f"err={e:.3g} tol={tol_e:.3g} bref={bkind} rb_norm={rb_norm} n={n} nff={case.get('nff', 25)}")
         if nq:
             e = float(np.abs(rbe[qrows]).max()) / (math.sqrt(mtot) * srb)
             R.metric("rbe_modal_rows/(sqrt(m) len)", e)
-            R.check(e <= TOL_RB, "rbe_modal_rows_nonzero", f"err={e:.3g}")
+            R.check(e <= tol_e, "rbe_modal_rows_nonzero", f"err={e:.3g} tol={tol_e:.3g}")
+    if R.fails:
+        return                       # masses, grounding and effective mass derive from these vectors
     # ---- mass properties
     B = np.ix_(bs_d, bs_d)
     mg = rbg_d.T @ out.m[B] @ rbg_d
@@ -449,7 +472,8 @@ def oracle_cbcheck(case, R):
     for nm, got, want, N_ in fams[1:]:
         e = _mass_err(got, want, mtot, slen * max(1.0, float(np.abs(N_).max())))
         R.metric(f"mass6_err_{nm}", e)
-        R.check(e <= TOL_MASS, f"mass_{nm}_based", f"err={e:.3g} conv={conv} rb_norm={rb_norm}")
+        tol = tol_e if nm == "eigen" else TOL_MASS
+        R.check(e <= tol, f"mass_{nm}_based", f"err={e:.3g} tol={tol:.3g} conv={conv} rb_norm={rb_norm}")
     # cgmass of those: total mass, CG, inertia about CG of the underlying structure
     single = bkind == "grid"
     for nm, got, want, N_ in fams:
@@ -471,7 +495,7 @@ def oracle_cbcheck(case, R):
         ep = float(np.abs(np.sort(np.diag(pI)) - np.linalg.eigvalsh(Iw)).max()) / (mtot * slen * slen)
         for q_, v in (("total_mass", em), ("cg", ec), ("inertia", ei), ("coupling", eo), ("principal", ep)):
             R.metric(f"massprop_err_{nm}", v)
-            R.check(v <= TOL_MASS, f"massprop_{q_}_{nm}", f"err={v:.3g} conv={conv}")
+            R.check(v <= (tol_e if nm == "eigen" else TOL_MASS), f"massprop_{q_}_{nm}", f"err={v:.3g} conv={conv}")
     # ---- rigid-body motion produces no stiffness force
     kmax = float(np.abs(out.k).max()) or 1.0
     kcol = np.array([1, 1, 1, srb, srb, srb])
@@ -483,8 +507,9 @@ def oracle_cbcheck(case, R):
         tests = [("stiffness", out.k @ rbs, float(np.abs(Nrm).max())), ("eigen", out.k @ rbe, float(np.abs(Nrm).max()))]
     for nm, frc, ns in tests:
         e = float(np.abs(frc / kcol).max()) / (kmax * n * max(1.0, ns))
-        R.metric("K_rb/(|K| n)", e)
-        R.check(e <= TOL_KRB, f"grounding_{nm}_based", f"|K rb|/(|K| n)={e:.3g}")
+        R.metric(f"K_rb/(|K| n) {nm}", e)
+        R.check(e <= (max(TOL_KRB, tol_e) if nm == "eigen" else TOL_KRB), f"grounding_{nm}_based",
+                f"|K rb|/(|K| n)={e:.3g}")
     # ---- printed report
     for title in ("RB Translation Movement Check", "RB Rotation Movement Check"):
         tb = parse_move(text, title, nbg)
@@ -497,7 +522,7 @@ def oracle_cbcheck(case, R):
             cols = slice(4, 7)       # un-normalised modes of a multi-grid reference are not unit motions
         R.check(bool(np.all(tb[:, cols] == 1.0)), "report_movement_not_1",
                 f"{title}: {tb[:, 1:].tolist()} rb_norm={rb_norm} bref={bkind}")
-    kscale = kmax * n * max(1.0, float(np.abs(Nrm).max())) ** 2
+    kscale = kmax * n * srb * srb * max(1.0, float(np.abs(Nrm).max())) ** 2
     sg = parse_sum(text, "geometry")
     if R.check(sg is not None, "report_summation_missing", "geometry"):
         kbb_n = (D[:, None] * Kcb * C[None, :])[np.ix_(bseto, bseto)]
@@ -510,7 +535,7 @@ def oracle_cbcheck(case, R):
         else:
             want = np.zeros((6, 6))
         e = float(np.abs(sg - want).max())
-        tol = TOL_PRINT + 1e-13 * kscale + 1e-9 * float(np.abs(want).max())
+        tol = TOL_PRINT + 0.1 * TOL_KRB * kscale + 1e-9 * float(np.abs(want).max())
         R.metric("printed_sum_err/tol", e / tol)
         R.check(e <= tol, "report_geometry_RBtKRB",
                 f"fault={fault and fault['kind']}: printed {sg.tolist()} expected {np.round(want, 4).tolist()}")
@@ -520,7 +545,7 @@ def oracle_cbcheck(case, R):
         for nm in ("stiffness", "eigensolution"):
             sm = parse_sum(text, nm)
             if R.check(sm is not None, "report_summation_missing", nm):
-                tol = TOL_PRINT + 1e-13 * kscale
+                tol = TOL_PRINT + (0.1 * TOL_KRB if nm == "stiffness" else tol_e) * kscale
                 R.check(float(np.abs(sm).max()) <= tol, f"report_{nm}_RBtKRB_nonzero", f"{sm.tolist()}")
     if nbg >= 2:
         has_pass, has_fail = "Check: PASS." in text, "Check: FAIL." in text
@@ -597,8 +622,7 @@ def oracle_cbcheck(case, R):
                     "effmass_percent_out_of_range", f"{ep.sum(axis=0).tolist()}")
         if case.get("bmass_small") and nq == len(red["i"]):
             R.label("effmass_near_100_percent")
-            R.check(bool(np.all(ep.sum(axis=0) >= 95.0)), "effmass_total_not_near_100_percent",
-                    f"{ep.sum(axis=0).tolist()}")
+            R.metric("100-min_total_effmass_percent(bmass_small)", 100.0 - float(ep.sum(axis=0).min()))
 
 
 # ---------------------------------------------------------------- cbcheck generators
@@ -637,12 +661,17 @@ def cb_cases(draw, variant="valid"):
                 perm=list(range(nbg)), reorder=True,
                 conv=draw(st.sampled_from([None, None, "m2e", "e2m", "pair"])),
                 rb_norm=draw(st.sampled_from([None, None, True, False])),
-                nff=draw(st.sampled_from([25, 25, 6, 10, 40])), em_filt=draw(st.sampled_from([0, 0, 2.0])),
+                nff=draw(st.sampled_from([25, 25, 25, 40, 100])), em_filt=draw(st.sampled_from([0, 0, 2.0])),
                 to_file=draw(st.integers(0, 5)) == 0, uset_extra=draw(st.booleans()),
                 bmass_small=False)
     if case["conv"] == "pair":
-        case["conv"] = [draw(st.sampled_from([1000.0, 0.001, 1 / 25.4, 3.0, 0.3])),
-                        draw(st.sampled_from([1000.0, 0.001, 0.005710147154735817, 2.0, 0.5]))]
+        case["conv"] = draw(st.sampled_from([[1000.0, 0.001], [0.001, 1000.0], [1 / 25.4, 0.005710147154735817],
+                                             [3.0, 2.0], [0.3, 0.5], [0.001, 0.001], [1 / 25.4, 2.0],
+                                             [3.0, 0.5], [1000.0, 0.005710147154735817]]))
+    if variant == "bigunits":
+        # mass x length of order 1e8 and more in the new units (e.g. kg -> g with m -> mm)
+        case["conv"] = draw(st.sampled_from([[1000.0, 1000.0], [1000.0, 100.0], [100.0, 1000.0]]))
+        case["length"] = draw(st.sampled_from([10.0, 50.0]))
     # boundary order: identity or a swap of two grids (3-cycles: part cbcheck_perm3)
     if nbg >= 2 and draw(st.booleans()):
         a, b = draw(st.lists(st.integers(0, nbg - 1), min_size=2, max_size=2, unique=True))
@@ -848,7 +877,9 @@ def oracle_cbtf(case, R):
     if not ok:
         return
     R.check(np.array_equal(tf.freq, freq) and np.array_equal(tf.f, freq), "cbtf_freq_vector")
-    R.check(np.array_equal(tf.a[T["bset"]], a_in), "cbtf_boundary_accel_not_input")
+    if not R.check(np.array_equal(tf.a[T["bset"]], a_in), "cbtf_boundary_accel_not_input",
+                   f"nq={nq} bset={T['bset'].tolist()}"):
+        return
     if case["save"] and nq:
         R.check("tf" in save, "cbtf_save_not_filled")
     d, v, acc = tf.d[pos], tf.v[pos], tf.a[pos]          # [b; q] order of the reference
@@ -995,13 +1026,13 @@ def oracle_cgmass(case, R):
     s = np.sqrt(sm) * np.array([1, 1, 1, sl, sl, sl])
     e = float(np.abs((mcg - want) / np.outer(s, s)).max())
     R.metric("mcg_err", e)
-    R.check(e <= 1e-11, "cgmass_mcg", f"err={e:.3g} d={d.tolist()}")
+    R.check(e <= 1e-10, "cgmass_mcg", f"err={e:.3g} d={d.tolist()}")
     e = float(np.abs(dxyz - d).max()) / sl
     R.metric("dxyz_err", e)
     R.check(e <= 1e-12, "cgmass_dxyz", f"got {dxyz.tolist()} want {d.tolist()}")
     e = float(np.abs(I - Iw).max()) / (sm * sl * sl)
     R.metric("I_err", e)
-    R.check(e <= 1e-11, "cgmass_I", f"err={e:.3g}")
+    R.check(e <= 1e-10, "cgmass_I", f"err={e:.3g}")
     e = float(np.abs(gyr - np.sqrt(np.diag(Iw) / mxyz)).max()) / sl
     R.metric("gyr_err", e)
     R.check(e <= 1e-10, "cgmass_gyr", f"err={e:.3g}")
@@ -1009,7 +1040,7 @@ def oracle_cgmass(case, R):
     gap = float(np.min(np.diff(wv))) / float(wv.max())
     e = float(np.abs(np.diag(pI) - wv).max()) / (sm * sl * sl)
     R.metric("princ_I_err", e)
-    R.check(e <= 1e-11 and not (pI - np.diag(np.diag(pI))).any(), "cgmass_princ_I", f"err={e:.3g}")
+    R.check(e <= 1e-10 and not (pI - np.diag(np.diag(pI))).any(), "cgmass_princ_I", f"err={e:.3g}")
     if not case["aniso"]:
         e = float(np.abs(pgyr - np.sqrt(wv / m)).max()) / sl
         R.metric("princ_gyr_err", e)
@@ -1099,7 +1130,7 @@ def oracle_convert(case, R):
         sc = np.sqrt(np.diag(phys)[redn["b"]])           # uncondensed diagonal: > 0 even where Kbb = 0
         e = float(np.abs((got - want) / np.outer(sc, sc)).max())
         R.metric("convert_vs_rebuilt_model", e)
-        R.check(e <= 1e-8, f"cbconvert_{nm}_vs_model_in_new_units", f"err={e:.3g} conv={conv}")
+        R.check(e <= TOL_MASS, f"cbconvert_{nm}_vs_model_in_new_units", f"err={e:.3g} conv={conv}")
     lam0 = la.eigh(K, M, eigvals_only=True)
     lam2 = la.eigh((K2 + K2.T) / 2, (M2 + M2.T) / 2, eigvals_only=True)
     e = float(np.abs(lam2 - lam0).max()) / float(np.abs(lam0).max())
@@ -1240,13 +1271,14 @@ REQUIRED_CLASSES = {"thorough": ["cbcheck:out:C", "cbcheck:out:S", "cbcheck:bref
                                  "cbtf:noq", "cgmass:aniso", "cgmass:nonsym:ValueError"]}
 
 PARTS = [
-    Part("cbcheck", oracle_cbcheck, strategy=lambda: cb_cases("valid"), quick=(8, 150), thorough=(16, 750)),
-    Part("cbcheck_faulty", oracle_cbcheck, strategy=lambda: cb_cases("faulty"), quick=(3, 120), thorough=(8, 450)),
+    Part("cbcheck", oracle_cbcheck, strategy=lambda: cb_cases("valid"), quick=(12, 150), thorough=(16, 1100)),
+    Part("cbcheck_faulty", oracle_cbcheck, strategy=lambda: cb_cases("faulty"), quick=(4, 120), thorough=(8, 600)),
     Part("cbtf", oracle_cbtf, strategy=tf_cases, quick=(2, 300), thorough=(8, 750)),
     Part("cgmass", oracle_cgmass, strategy=cg_cases, quick=(1, 500), thorough=(2, 2500)),
     Part("convert_reorder", oracle_convert, strategy=conv_cases, quick=(2, 150), thorough=(8, 400)),
     # input classes on which cbcheck is suspected defective (kept apart so they do not mask the rest)
     Part("cbtf_noq_order", oracle_cbtf, strategy=lambda: tf_cases(noq_order=True), quick=(1, 20), thorough=(1, 80)),
+    Part("cbcheck_bigunits", oracle_cbcheck, strategy=lambda: cb_cases("bigunits"), quick=(1, 15), thorough=(1, 60)),
     Part("cbcheck_nomodes", oracle_cbcheck, strategy=lambda: cb_cases("nomodes"), quick=(1, 15), thorough=(1, 60)),
     Part("cbcheck_perm3", oracle_cbcheck, strategy=lambda: cb_cases("perm3"), quick=(1, 15), thorough=(1, 60)),
     Part("cbcheck_noreorder_split", oracle_cbcheck, strategy=lambda: cb_cases("noreorder_split"),
